@@ -30,7 +30,11 @@ impl ApplyCacheStats {
     requires p < 64,
     ensures r == (v as nat) % pow2(p as nat), r < pow2(p as nat),
 //%% @entry
-    proof { lemma_shl(p as u64); lemma_pow2_pos(p as nat); }
+    proof {
+        lemma_shl(p as u64); lemma_pow2_pos(p as nat);
+        // the mask form of the same computation (a common refactoring) is the same function
+        assert(v & (((1usize << p) - 1) as usize) == v % (1usize << p)) by(bit_vector) requires p < 64;
+    }
 //%% end
 
 #[derive(Clone)]
